@@ -350,9 +350,6 @@ class Gen:
         r = self.rng
         k = r.randrange(9)
         self.f("err-leaf")
-        if self.modes == (None,) and not self.allow_async and r.random() < 0.06:
-            self.f("unpicklable-error")
-            return self.t("busy")(self.tag())
         if k <= 3:
             if self.allow_async and r.random() < 0.3:
                 self.f("async")
